@@ -59,7 +59,7 @@ def relevant(prop, st):
     if prop == "C04":
         return g("ledger-events")
     if prop == "C06":
-        return g("op:serde")
+        return g("op:serde") + g("regn-cases")
     if prop == "C10":
         return g("op:clone") + g("op:clone_from")
     if prop == "C13":
@@ -106,8 +106,9 @@ def run_world_prop(prop, tier, seed, replay):
                 cfgs = [("MCSerdePairs.cfg", "Serde.tla on every reachable store (1 world, <=2 creations): encoding accepted and decoded to the same store; every accepted single mutation and every accepted coordinated pair of mutations decodes to a store satisfying StoreInv")]
                 if tier == "thorough":
                     cfgs.append(("MCSerde.cfg", "same, single mutations, <=3 creations (20 691 stores)"))
+                cfgs.append(("MCRegN.cfg", "RegN.tla for every registry size 1..17: the wire form of every valid archetype identifier is accepted, every padding bit is refused, the wire form is injective"))
                 for cfg, desc in cfgs:
-                    r = tlc_mc("MCSerde.tla", cfg, os.path.join(WORK, "mc", cfg + ".meta"), workers=8, timeout=3000)
+                    r = tlc_mc("MCRegN.tla" if cfg.startswith("MCRegN") else "MCSerde.tla", cfg, os.path.join(WORK, "mc", cfg + ".meta"), workers=8, timeout=3000)
                     extra.append({"cfg": cfg, "desc": desc, "ok": r["ok"], "generated": r["generated"], "distinct": r["distinct"],
                                   "violated": r["violated"], "log": "-", "wall": r["wall"]})
                 cache_put("mcserde-" + tier, key, extra)
@@ -154,6 +155,12 @@ def run_world_prop(prop, tier, seed, replay):
                 h = f["hdr"]
                 fails.append({"prop": "C15", "line": f["line"], "name": f["name"], "op": "run_schedule %s preset %s" % (h.get("names"), h.get("preset")),
                               "trace": f["trace"], "replay": f["replay"]})
+    if prop == "C03":
+        # a parallel query is a query: its result set / values are compared with the model's matching
+        # set (not with the sequential run), so a wrong parallel result also contradicts C03
+        fails += [f for f in res["fails"] if f["prop"] == "C09" and f["op"] == "query"
+                  and f["name"] in ("result-count", "result-identifiers", "result-values", "result-multiset",
+                                    "writes-through-views", "corrupt-value-in-result")]
     if prop == "C11":
         # a world handed back from untrusted input must keep satisfying every other property
         fails += [f for f in res["fails"] if f.get("profile", "").startswith("untrusted") and f["prop"] not in ("C11", "INFO", "HARNESS")]
@@ -161,7 +168,7 @@ def run_world_prop(prop, tier, seed, replay):
     violations = [{"what": "%s (line %d of %s, op %s)" % (f["name"], f["line"], f["trace"], f["op"]),
                    "replay": f["replay"]} for f in viol]
     for m in mc:
-        if not m["ok"] and (m["violated"] in (MC_INV.get(prop), None) or prop in ("C09", "C05") or m["cfg"].startswith("MCSerde")):
+        if not m["ok"] and (m["violated"] in (MC_INV.get(prop), None) or prop in ("C09", "C05") or m["cfg"].startswith(("MCSerde", "MCRegN"))):
             violations.append({"what": "model: %s violated in %s (%s)" % (m["violated"], m["cfg"], m["desc"]),
                                "replay": m["log"]})
     level, text = WORLD_NOTES[prop]
